@@ -10,12 +10,15 @@ func init() { streams["C19"] = streamC19 }
 
 func streamC19(c *Ctx) {
 	c.Rule = "collections of JSON-representable documents (finite numbers within 2^53, valid UTF-8 strings, nested maps/slices, times with offsets and nanoseconds) with and without indexes on the source: Export, parse of the written file by an independent JSON reader, Import under a new name, then FindAll/Count on both; " +
-		"failure paths: import under an existing name, from a missing / truncated / non-array file, a file with a null element, with a malformed or duplicate _id; results and raw dumps vs the Lean model (JSON typing: numbers -> float64, times -> RFC 3339 text) and spec. non-trivial = distinct exported collection with at least one document containing a time or a nested value"
+		"failure paths (also at the end of files of 1200-4300 documents / more than 4 MiB, on the implementation alone: error reported, raw dump unchanged, name still free): import under an existing name, from a missing / truncated / non-array file, a file with a null element, with a malformed or duplicate _id; results and raw dumps vs the Lean model (JSON typing: numbers -> float64, times -> RFC 3339 text) and spec. non-trivial = distinct exported collection with at least one document containing a time or a nested value"
 	dr := StartDriver(c.DriverBin)
 	defer dr.Close()
 	dm := Domain{IntsWithin2p53: true, NoNegTimes: false, JSONSafe: true, NoDollar: false}
 	n := c.N(40, 800)
 	for bi, be := range backendsAll {
+		if !bigFailingImports(c, be) {
+			return
+		}
 		im := NewImpl(be, c.Scratch)
 		// collection sizes at and around powers of two (an exporter or importer that works in pages or batches
 		// has its boundary there): export, import under a new name, compare counts and contents
